@@ -476,7 +476,7 @@ func c23SnapOuter(tmp string) map[string]c23Node {
 func c23Run(c c23Case, tree bool) (verifkit.Outcome, error) {
 	c23UmaskOnce.Do(func() { syscall.Umask(0) })
 	o := verifkit.Outcome{}
-	reps := verifkit.Size(3, 4)
+	reps := 3
 	if verifkit.ReplayRequested() {
 		reps = 48 // a replay must meet the map order that exposed the problem
 	}
